@@ -625,3 +625,27 @@ package store
 //@   modifies ghost:hcHas, ghost:icHas, AP_set, AP_val_Hdr, AT_u64, sub.count, MH_Int_Int_has, MH_Int_Int_val, ghost:arrived
 //@   before cancel [C06] cancel-after-drain: recvd("Store.writesDn") > 0 -- the writer has finished before its context is cancelled
 //@   ensures [C06] signal-queued: result == nil ==> sent("Store.writes") == old(sent("Store.writes")) + 1
+
+// ---- store_recover.go (C06): manual recovery keeps memory and disk pointers in step
+//@ func UnsafeResetHead(ctx, store, height)
+//@   props C06
+//@   requires storeINV(store) && store.ds != nil && !isBatch(store.ds)
+//@   modifies $now, ghost:hcHas, ghost:hcVal, ghost:icHas, ghost:icVal, ghost:btHas, ghost:btPuts, ghost:btVal, ghost:dsHas, ghost:dsVal, ghost:dsWrites, AP_set, AP_val_Hdr
+//@   ensures [C06] moved-together: result == nil ==> apSet(store.contiguousHead) && apVal(store.contiguousHead).Height() == height && onChain(apVal(store.contiguousHead)) && dsHas[headKey] && dsVal[headKey] == jsonHash(apVal(store.contiguousHead).Hash())
+//@   ensures [C06] failed-keeps-memory: result != nil ==> apSet(store.contiguousHead) == old(apSet(store.contiguousHead)) && apVal(store.contiguousHead) == old(apVal(store.contiguousHead))
+//@   ensures [C06] only-the-head-key: forall k Key @ dsHas[k] :: k != headKey ==> (dsHas[k] <==> old(dsHas)[k])
+
+//@ func UnsafeResetTail(ctx, store, height)
+//@   props C06
+//@   requires storeINV(store) && store.ds != nil && !isBatch(store.ds)
+//@   modifies $now, ghost:hcHas, ghost:hcVal, ghost:icHas, ghost:icVal, ghost:btHas, ghost:btPuts, ghost:btVal, ghost:dsHas, ghost:dsVal, ghost:dsWrites, AP_set, AP_val_Hdr, AT_u64, sub.count, MH_Int_Int_has, MH_Int_Int_val, ghost:arrived
+//@   ensures [C06] moved-together: result == nil ==> apSet(store.tailHeader) && apVal(store.tailHeader).Height() == height && dsHas[tailKey] && dsVal[tailKey] == jsonHash(apVal(store.tailHeader).Hash())
+
+//@ func FindHeader(ctx, store, startFrom)
+//@   props C06
+//@   unreachable return0 : datastore read errors other than ErrNotFound are not modelled (store.spec)
+//@   requires storeINV(store) && store.ds != nil && !isBatch(store.ds)
+//@   modifies $now, ghost:hcHas, ghost:hcVal, ghost:icHas, ghost:icVal
+//@   ensures [C06] found-is-stored: result1 == nil ==> onChain(result0)
+//@ loop 0:
+//@   invariant inv: hdrCacheOK() && idxCacheOK() && dsHdrOK() && batchOK(store.pending)
